@@ -688,6 +688,19 @@ Proof.
     apply G. lia. }
   destruct (mapply_block_diag _ _ HF2) as [Hm _]. rewrite Hm. now rewrite zipw_map_seq.
 Qed.
+(* W @ J column by column: column j of W J is W applied to column j of J, so the broadcast statement for
+   W @ R transfers to every column of the weighted Jacobian *)
+Definition mcol_of (j : nat) (J : @mat R) : list R := map (fun row => nth j row 0) J.
+Lemma mmul_columns n m (W J : @mat R) i j : wf n n W -> wf n m J -> (i < n)%nat -> (j < m)%nat ->
+  mget (mmul W J) i j = vget (mapply W (mcol_of j J)) i.
+Proof.
+  intros HW HJ Hi Hj. rewrite (mget_mmul n n m) by assumption. rewrite (vget_mapply n n) by assumption.
+  apply sumn_ext. intros k Hk. f_equal. unfold mcol_of, vget, mget.
+  cbn [zero NumR].
+  rewrite (nth_indep (map (fun row : list R => nth j row 0) J) 0 ((fun row : list R => nth j row 0) []))
+    by (rewrite map_length; destruct HJ as (_ & _ & -> & _); exact Hk).
+  now rewrite (map_nth (fun row : list R => nth j row 0)).
+Qed.
 End BlockDiag.
 
 (* ===================================================================================== *)
@@ -732,5 +745,14 @@ Proof.
   intros Hs. unfold gn_step.
   assert (Ha : assemble corr free_pb = Some ([1], None, [[1; 1]])) by reflexivity.
   rewrite Ha. cbn [gn_system]. rewrite Hs. eexists. split; [reflexivity|]. split; reflexivity.
+Qed.
+
+(* the solver contract is satisfiable on that system: the minimum-norm solution and another one *)
+Lemma free_pb_normal_equations :
+  let A := [[1; 1]] in let b := vneg [1] in
+  mapply (mtr A) (mapply A [-1/2; -1/2]) = mapply (mtr A) b /\ mapply (mtr A) (mapply A [-1; 0]) = mapply (mtr A) b.
+Proof.
+  cbv [mapply mtr mkmat mkvec mrows mcols map seq length sumn mget vget nth vneg add mul zero opp NumR].
+  split; (apply f_equal2; [lra | apply f_equal2; [lra | reflexivity]]).
 Qed.
 End Witness.
